@@ -481,8 +481,10 @@ static char c_list_new (char **av) { int d = ai (av, 1); LIB (); EMPTY (d); put 
 static char list_add (char **av, int pre) { int d = ai (av, 1); long x = ai (av, 2); LIB (); NEED (d, T_LIST);
 	PList *l = pre ? p_list_prepend (S[d].p, PTR (x)) : p_list_append (S[d].p, PTR (x));
 	S[d].p = l;
-	if ((long) p_list_length (l) == S[d].a + 1) { S[d].a++; return 'S'; }
-	return 'D'; }
+	if ((long) p_list_length (l) == S[d].a + 1) { S[d].a++;
+		PList *at = pre ? l : p_list_last (l);
+		return (at != NULL && at->data == PTR (x)) ? 'S' : 'X'; }
+	return (long) p_list_length (l) == S[d].a ? 'D' : 'X'; }
 static char c_list_append (char **av) { return list_add (av, 0); }
 static char c_list_prepend (char **av) { return list_add (av, 1); }
 static char c_list_remove (char **av) { int d = ai (av, 1); long x = ai (av, 2); LIB (); NEED (d, T_LIST);
@@ -497,11 +499,16 @@ static char c_tree_new (char **av) { int d = ai (av, 1), t = ai (av, 2); LIB ();
 static char c_tree_insert (char **av) { int d = ai (av, 1); long k = ai (av, 2); LIB (); NEED (d, T_TREE);
 	PTree *t = S[d].p; int had = p_tree_lookup (t, PTR (k + 1)) != NULL; pint n0 = p_tree_get_nnodes (t);
 	p_tree_insert (t, PTR (k + 1), PTR (k + 1));
-	if (had) return 'S';
-	return p_tree_get_nnodes (t) == n0 + 1 ? 'S' : 'F'; }
+	int found = p_tree_lookup (t, PTR (k + 1)) == PTR (k + 1); pint n1 = p_tree_get_nnodes (t);
+	if (had) return (found && n1 == n0) ? 'S' : 'X';
+	if (found && n1 == n0 + 1) return 'S';
+	return (!found && n1 == n0) ? 'F' : 'X'; }        /* X: the tree says one thing through its count and another through its nodes */
 static char c_tree_remove (char **av) { int d = ai (av, 1); long k = ai (av, 2); LIB (); NEED (d, T_TREE);
-	p_tree_remove (S[d].p, PTR (k + 1)); return 'S'; }
-static char c_tree_clear (char **av) { int d = ai (av, 1); LIB (); NEED (d, T_TREE); p_tree_clear (S[d].p); return 'S'; }
+	int had = p_tree_lookup (S[d].p, PTR (k + 1)) != NULL; pint n0 = p_tree_get_nnodes (S[d].p);
+	pboolean r = p_tree_remove (S[d].p, PTR (k + 1));
+	if (p_tree_lookup (S[d].p, PTR (k + 1)) != NULL || p_tree_get_nnodes (S[d].p) != n0 - (had ? 1 : 0) || (r != FALSE) != had) return 'X';
+	return 'S'; }
+static char c_tree_clear (char **av) { int d = ai (av, 1); LIB (); NEED (d, T_TREE); p_tree_clear (S[d].p); return p_tree_get_nnodes (S[d].p) == 0 ? 'S' : 'X'; }
 static char c_tree_free (char **av) { int d = ai (av, 1); LIB (); NEED (d, T_TREE); p_tree_free (S[d].p); clr (d); return 'S'; }
 
 /* --- hash table (the slot keeps a shadow of the stored pairs: the API cannot list them without allocating) */
@@ -511,8 +518,9 @@ static char c_ht_new (char **av) { int d = ai (av, 1); LIB (); EMPTY (d);
 static char c_ht_insert (char **av) { int d = ai (av, 1); long k = ai (av, 2), v = ai (av, 3); LIB (); NEED (d, T_HT);
 	if (S[d].a >= 64 && sh_find (&S[d], k) < 0) return '-';
 	p_hash_table_insert (S[d].p, PTR (k), PTR (v));
-	if (p_hash_table_lookup (S[d].p, PTR (k)) == (ppointer) -1) return 'F';
 	int i = sh_find (&S[d], k);
+	if (p_hash_table_lookup (S[d].p, PTR (k)) == (ppointer) -1) return i < 0 ? 'F' : 'X';     /* X: a key that was there is gone */
+	if (p_hash_table_lookup (S[d].p, PTR (k)) != PTR (v)) return 'X';
 	if (i < 0) { i = (int) S[d].a++; S[d].sh[i].k = k; }
 	S[d].sh[i].v = v;
 	return 'S'; }
@@ -520,6 +528,8 @@ static char c_ht_remove (char **av) { int d = ai (av, 1); long k = ai (av, 2); L
 	p_hash_table_remove (S[d].p, PTR (k));
 	int i = sh_find (&S[d], k);
 	if (i >= 0) S[d].sh[i] = S[d].sh[--S[d].a];
+	if (p_hash_table_lookup (S[d].p, PTR (k)) != (ppointer) -1) return 'X';
+	for (int j = 0; j < S[d].a; j++) if (p_hash_table_lookup (S[d].p, PTR (S[d].sh[j].k)) != PTR (S[d].sh[j].v)) return 'X';   /* the other pairs are as the mirror has them */
 	return 'S'; }
 static char ht_list (char **av, int what) { int s = ai (av, 1), d = ai (av, 2); long v = ai (av, 3); LIB (); NEED (s, T_HT); EMPTY (d);
 	PList *l = what == 0 ? p_hash_table_keys (S[s].p) : (what == 1 ? p_hash_table_values (S[s].p) : p_hash_table_lookup_by_value (S[s].p, PTR (v), NULL));
@@ -930,7 +940,11 @@ static unsigned long long fnv (unsigned long long h, const void *p, size_t n) {
 static unsigned long long fnv_l (unsigned long long h, long long v) { return fnv (h, &v, sizeof v); }
 static unsigned long long fnv_s (unsigned long long h, const char *s) { return s ? fnv (fnv_l (h, 1), s, strlen (s) + 1) : fnv_l (h, 0); }
 static unsigned long long tree_h;
-static pboolean tree_visit (ppointer k, ppointer v, ppointer d) { tree_h = fnv_l (fnv_l (tree_h, (long long) (psize) k), (long long) (psize) v); return FALSE; }
+static long tree_visits; static psize tree_last; static int tree_sorted;
+static int incons;                  /* set by content(): the object contradicts itself (node count vs nodes visited, key order, list lengths) */
+static pboolean tree_visit (ppointer k, ppointer v, ppointer d) { tree_h = fnv_l (fnv_l (tree_h, (long long) (psize) k), (long long) (psize) v);
+	if (tree_visits > 0 && (psize) k <= tree_last) tree_sorted = 0;
+	tree_visits++; tree_last = (psize) k; return FALSE; }
 static const char *TYNAME[] = { "none", "str", "list", "strlist", "tree", "ht", "err", "ini", "hash", "dir", "dirent", "saddr", "sock",
 	"sem", "shm", "shmbuf", "mutex", "cond", "rwlock", "rwlockg", "spin", "prof", "thread", "tls", "loader", "mmap" };
 
@@ -942,13 +956,17 @@ static unsigned long long content (int i) {
 	case T_LIST: { long n = 0; for (PList *c = p; c; c = c->next) { h = fnv_l (h, (long long) (psize) c->data); n++; }
 		return fnv_l (fnv_l (h, n), (long long) p_list_length (p)); }
 	case T_STRLIST: { for (PList *c = p; c; c = c->next) h = fnv_s (h, c->data); return fnv_l (h, (long long) p_list_length (p)); }
-	case T_TREE: tree_h = fnv_l (h, p_tree_get_nnodes (p)); tree_h = fnv_l (tree_h, p_tree_get_type (p)); p_tree_foreach (p, tree_visit, NULL);
+	case T_TREE: tree_h = fnv_l (h, p_tree_get_nnodes (p)); tree_h = fnv_l (tree_h, p_tree_get_type (p));
+		tree_visits = 0; tree_sorted = 1; p_tree_foreach (p, tree_visit, NULL);
+		if (tree_visits != p_tree_get_nnodes (p) || !tree_sorted) incons = 1;
 		for (long k = 0; k < 12; k++) tree_h = fnv_l (tree_h, (long long) (psize) p_tree_lookup (p, PTR (k)));
 		return tree_h;
 	case T_HT: { PList *ks = p_hash_table_keys (p), *vs = p_hash_table_values (p);
 		for (PList *c = ks; c; c = c->next) h = fnv_l (fnv_l (h, (long long) (psize) c->data), (long long) (psize) p_hash_table_lookup (p, c->data));
 		for (PList *c = vs; c; c = c->next) h = fnv_l (h, (long long) (psize) c->data);
 		h = fnv_l (fnv_l (h, (long long) p_list_length (ks)), (long long) p_list_length (vs));
+		if (p_list_length (ks) != p_list_length (vs)) incons = 1;
+		for (PList *c = ks; c; c = c->next) for (PList *c2 = c->next; c2; c2 = c2->next) if (c->data == c2->data) incons = 1;   /* a key twice */
 		static const long probe[] = { 0, 1, 2, 3, 5, 7, 55, 102, 203 };
 		for (size_t k = 0; k < sizeof probe / sizeof probe[0]; k++) h = fnv_l (h, (long long) (psize) p_hash_table_lookup (p, PTR (probe[k])));
 		p_list_free (ks); p_list_free (vs); return h; }
@@ -1007,11 +1025,13 @@ static int probe_after (char **av, const char *may, char outcome) {
 		else if (*q) q++;
 	}
 	for (int i = 0; i < NSLOT; i++) {
+		incons = 0;
 		unsigned long long h = S[i].t == T_NONE ? 0 : content (i);
-		if (seen[i].t != T_NONE && seen[i].t == S[i].t && seen[i].h != h && !allowed[i]
-		    && !(shm_all && (S[i].t == T_SHM || S[i].t == T_SHMBUF))) {
+		int changed = seen[i].t != T_NONE && seen[i].t == S[i].t && seen[i].h != h && !allowed[i]
+		    && !(shm_all && (S[i].t == T_SHM || S[i].t == T_SHMBUF));
+		if (changed || incons) {
 			size_t L = strlen (chg);
-			if (L + 40 < sizeof chg) snprintf (chg + L, sizeof chg - L, "%s%ld:%d:%s", L ? "," : "", ncall, i, TYNAME[S[i].t]);
+			if (L + 40 < sizeof chg) snprintf (chg + L, sizeof chg - L, "%s%ld:%d:%s%s", L ? "," : "", ncall, i, TYNAME[S[i].t], changed ? "" : "!");
 			bad = 1;
 		}
 		seen[i].t = S[i].t; seen[i].h = h;
